@@ -84,10 +84,17 @@ type c17Case struct {
 	Site    string // cls-read | cls-setdeadline | relay-client-read | relay-client-write | relay-client-close | relay-client-setdeadline | relay-covert-dies | none
 	K       int    // call index at that site
 	Shape   string
+	// a second, different failure in the same tunnel (found outcome only): relay-client-read | relay-client-write | relay-client-close
+	Site2  string
+	Shape2 string
 }
 
 func (c c17Case) String() string {
-	return fmt.Sprintf("#%d client=%s outcome=%s site=%s@%d shape=%s", c.N, c17Clients[c.Client].name, c.Outcome, c.Site, c.K, c.Shape)
+	second := ""
+	if c.Site2 != "" {
+		second = fmt.Sprintf(" then site=%s shape=%s", c.Site2, c.Shape2)
+	}
+	return fmt.Sprintf("#%d client=%s outcome=%s site=%s@%d shape=%s%s", c.N, c17Clients[c.Client].name, c.Outcome, c.Site, c.K, c.Shape, second)
 }
 
 type c17World struct {
@@ -247,6 +254,23 @@ func c17Run(w *c17World, rec *kit.Rec, shapes map[string]c17Shape, c c17Case, ma
 			segs = append(segs, kit.Seg{Data: junk[:64]})
 		}
 	}
+	if c.Site2 != "" && (c.Outcome == "found") {
+		mk2 := func(op string) error { return shapes[c.Shape2].mk(op, local, remote) }
+		switch c.Site2 {
+		case "relay-client-read":
+			// the pending read of the other direction fails too, with another cause
+			segs = append(segs, kit.Seg{Err: mk2("read")})
+			conn.AtEnd = kit.EndEOF
+		case "relay-client-write":
+			if _, taken := conn.WScript[0]; !taken {
+				conn.WScript[0] = kit.WStep{Accept: 3, Err: mk2("write")}
+			} else {
+				conn.WScript[1] = kit.WStep{Accept: 0, Err: mk2("write")}
+			}
+		case "relay-client-close":
+			conn.CloseErr = mk2("close")
+		}
+	}
 	conn.Feed(segs...)
 	reg := w.s.rm
 	_ = reg
@@ -257,7 +281,7 @@ func c17Run(w *c17World, rec *kit.Rec, shapes map[string]c17Shape, c c17Case, ma
 	w.s.vHandle(conn, phantom)
 	rec.Count("evaluations", 1)
 	rec.Count("conn_ops", len(conn.Ops()))
-	rec.Distinct("nontrivial", c17Clients[c.Client].name, c.Outcome, c.Site, c.K, c.Shape)
+	rec.Distinct("nontrivial", c17Clients[c.Client].name, c.Outcome, c.Site, c.K, c.Shape, c.Site2, c.Shape2)
 	rec.Distinct("sites", c.Outcome, c.Site)
 	rec.Distinct("shapes", c.Shape)
 	if rec.WantSample() && c.Shape != "" && c.Outcome == "found" {
@@ -315,6 +339,19 @@ func TestVerifC17Conns(t *testing.T) {
 				for _, sh := range shapeList {
 					add(ci, s.outcome, s.site, k, sh.name)
 				}
+			}
+		}
+	}
+	// two different failures on the client side of one tunnel (e.g. the write to the client fails with "host unreachable"
+	// and the pending read with "connection reset"): every ordered pair of sites × a rotation of shape pairs
+	pairSites := [][2]string{{"relay-client-write", "relay-client-read"}, {"relay-client-read", "relay-client-write"}, {"relay-client-write", "relay-client-close"},
+		{"relay-client-read", "relay-client-close"}}
+	for ci := range c17Clients {
+		for pi, ps := range pairSites {
+			for si := range shapeList {
+				a, b := shapeList[si], shapeList[(si+1+pi)%len(shapeList)]
+				n++
+				cases = append(cases, c17Case{N: n, Client: ci, Outcome: "found", Site: ps[0], K: 0, Shape: a.name, Site2: ps[1], Shape2: b.name})
 			}
 		}
 	}
